@@ -133,7 +133,15 @@ func (n *verifC13_mnode) markDeleted() {
 	n.deleted = true
 }
 
+// stepOps performs one step restricted to the given operation kinds.
+func (s *verifC13_state) stepOps(ops []int) {
+	s.ops = ops
+	s.step()
+	s.ops = nil
+}
+
 type verifC13_state struct {
+	ops []int
 	env   *verifC13_env
 	dirs  []*verifC13_mnode // directories the harness can address (root first)
 	names []string
@@ -270,7 +278,13 @@ func (s *verifC13_state) step() {
 		before[x] = verifC13_changeID(x.real)
 		chBefore[x] = x.changes
 	}
-	switch rt.Choose(11) {
+	op := 0
+	if s.ops != nil {
+		op = s.ops[rt.Choose(len(s.ops))]
+	} else {
+		op = rt.Choose(11)
+	}
+	switch op {
 	case 10: // worker-facing: FilterChildren reports every visible leaf below the directory once
 		if d.deleted {
 			return
@@ -770,4 +784,37 @@ func verifHarness_C13_ListingAcrossModification() {
 	if created {
 		rt.Cover("readdir:interrupted-by-creation")
 	}
+}
+
+// Renames between two directories that both hold an entry of the same name
+// (replacement of a file by a file, of an empty directory by a directory, the
+// refused combinations), followed by one more arbitrary operation: results and
+// change counters of both directories equal the reference.
+func verifHarness_C13_RenameAcrossDirectories() {
+	rt.MustCover("op:rename-replace", "op:rename")
+	ctx := context.Background()
+	s := verifC13_newState([]string{"a", "b"})
+	root := s.dirs[0]
+	// prefix (mirrored in the model): root/a is a directory, root/b and root/a/b are files
+	{
+		var out Attributes
+		child, _, st := root.real.VirtualMkdir(ctx, path.MustNewComponent("a"), &Attributes{}, 0, &out)
+		rt.Assert(st == StatusOK, "mkdir a")
+		m := &verifC13_mnode{isDir: true, children: map[string]*verifC13_mnode{}, real: child.(*inMemoryPrepopulatedDirectory)}
+		root.children["a"] = m
+		root.changes++
+		s.dirs = append(s.dirs, m)
+		for _, d := range []*verifC13_mnode{root, m} {
+			var out Attributes
+			_, _, _, st := d.real.VirtualOpenChild(ctx, path.MustNewComponent("b"), ShareMaskRead, &Attributes{}, nil, 0, &out)
+			rt.Assert(st == StatusOK, "create b")
+			d.children["b"] = &verifC13_mnode{leaf: s.env.leaves[len(s.env.leaves)-1]}
+			d.changes++
+		}
+	}
+	s.compare(root, 0)
+	s.stepOps([]int{4})
+	s.step()
+	s.compare(root, 0)
+	s.compareListing(root)
 }
